@@ -19,7 +19,7 @@ RUSTFLAGS="-Cinstrument-coverage" cargo +nightly build --offline --release \
 # Instrumented counters are shared between threads (cache-line contention makes a 16-thread exhaustive pass ~100x
 # slower), so: the smoke tier of every monitor on 2 threads, and in addition the quick tier on 4 threads for the
 # monitors whose quick tier is small ($COV_QUICK).
-QUICK_ONES="${COV_QUICK:-C11 C13 C14 C15 C16 C17 C18 C20}"
+QUICK_ONES="${COV_QUICK:-C11 C15 C16 C17 C18 C20}"
 for n in $(seq -w 1 20); do
   p="C$n"
   s=$(date +%s)
